@@ -705,7 +705,7 @@ fn main() {
                         });
                     }
                     // keep the reader case affordable for 1-byte reads
-                    let rsize = if total > 200_000 && rsize < 512 { 4096 } else { rsize };
+                    let rsize = if total > 20_000 && rsize < 512 { 4096 } else { rsize };
                     let trail = *rng.pick(&[0usize, 1, 5, 10, 16]);
                     run_reader_case(&mut tr, max, &o.stream, total, trail, rsize, &segs, rng.coin());
                     reader_cases += 1;
